@@ -4,6 +4,7 @@ package zerolog
 
 import (
 	"github.com/rs/zerolog/internal/zzverif"
+	"io/ioutil"
 )
 
 // ---- C03: event layout and hook discipline ----
@@ -116,7 +117,7 @@ func VH_C03_layout() {
 	// event
 	var e *Event
 	var lvl Level
-	switch zzverif.Choice(6) {
+	switch zzverif.Choice(7) {
 	case 0:
 		e, lvl = l.Info(), InfoLevel
 	case 1:
@@ -129,6 +130,9 @@ func VH_C03_layout() {
 		e, lvl = l.Warn(), WarnLevel
 	case 5:
 		e, lvl = l.WithLevel(NoLevel), NoLevel
+	case 6:
+		// an application-defined level above Disabled: an ordinary level with a level field
+		e, lvl = l.WithLevel(Level(9)), Level(9)
 	}
 	if lvl != NoLevel && levelName != "" {
 		want = append(want, levelName)
@@ -331,4 +335,24 @@ func VH_C03_sibling_hooks() {
 		zzverif.Assert(vHookLog[i].id == want[i], "sibling hooks: ancestors' hooks first, then the logger's own, never a sibling's")
 	}
 	zzverif.Reach("C03/sibling-hooks")
+}
+
+// Hooks run for every enabled event whatever the destination is: a logger that writes to
+// io.Discard (New(nil), Output(io.Discard)) is the usual way to forward events through hooks only.
+func VH_C03_discard_writer() {
+	vHookLog = nil
+	var l Logger
+	switch zzverif.Choice(3) {
+	case 0:
+		l = New(nil)
+	case 1:
+		l = New(ioutil.Discard)
+	case 2:
+		l = New(&vWriter{}).Output(ioutil.Discard)
+	}
+	l = l.Hook(vActHook{id: 1, mode: 1}, vActHook{id: 2})
+	l.Info().Str("a", "b").Msg("m")
+	zzverif.Assert(len(vHookLog) == 2 && vHookLog[0].id == 1 && vHookLog[1].id == 2, "hooks run once per enabled event, in registration order, also when the destination is io.Discard")
+	zzverif.Assert(len(vHookLog) == 2 && vHookLog[0].level == InfoLevel && vHookLog[0].msg == "m", "hooks receive the event's level and message (io.Discard destination)")
+	zzverif.Reach("C03/discard-writer")
 }
